@@ -15,7 +15,21 @@ METHODS = ['Table', 'Echo', 'Pair', 'Words']
 
 
 class SrvError(Exception):
-    dbusErrorName = 'org.ex.SrvError'
+    # the DBus name is set on the instance (as txdbus.bus.DError does), not on the class
+    def __init__(self, text):
+        Exception.__init__(self, text)
+        self.dbusErrorName = 'org.ex.SrvError'
+
+
+def other_echo_known(yes):
+    """the process also knows an interface called org.ex.Echo with OTHER declarations (registered globally): a proxy built
+    from the interface object the caller passes uses that object.  (Not with introspected proxies: those reuse known
+    interfaces by design - C15.)"""
+    ki = interface.DBusInterface.knownInterfaces
+    ki.pop('org.ex.Echo', None)
+    if yes:
+        interface.DBusInterface('org.ex.Echo', interface.Method('Echo', arguments='i', returns='i'),
+                                interface.Method('Table', arguments='', returns='s'))
 
 
 def misfit(arg):
@@ -100,6 +114,7 @@ class E2EDriver:
     def __init__(self, calls, raises, introspect=False, unix=False, extra_clients=0):
         self.calls = list(calls)
         self.introspect = introspect
+        other_echo_known(not introspect)
         self.raises = {'arg%d' % k for k in raises}
         self.shift = 0 if not introspect else (2 if unix else 3)      # which methods the calls use
         self.net = fakes.BusNet(unix=unix)
